@@ -39,7 +39,8 @@ struct Engine {
 	virtual J generate(uint64_t seed,const std::string &prop,bool thorough) = 0;
 	virtual RunResult run(const J &plan) = 0;           // pure function of the plan and the code
 	virtual bool fork_per_run(const J &plan) { (void)plan; return false; }
-	virtual bool always_forks() { return false; }       // every run of this engine is forked: the batch driver lets the child generate the plan too, so that the driver's own heap stays as pristine as that of a confirming process (address-ordered containers in the code under test)
+	virtual bool always_forks() { return false; }
+	virtual bool exec_per_run() { return false; }       // always_forks engines only: every run (batch and the two reproduction runs of a confirmation) happens in a fresh image of the program       // every run of this engine is forked: the batch driver lets the child generate the plan too, so that the driver's own heap stays as pristine as that of a confirming process (address-ordered containers in the code under test)
 	virtual bool shrink_skip_key(const std::string &k) { return k.size() >= 4 && k.compare(k.size()-4,4,"seed") == 0; }
 };
 
@@ -78,18 +79,8 @@ inline void fatal_cb(const char *cls,const std::string &msg){
 	_exit(3);
 }
 
-// run one plan in a forked child of this (pristine) process
-inline RunResult run_forked(Engine &e,const J &plan_in,int timeout_s = 40,const std::function<J()> *gen = nullptr){   // a run that spins outside the simulator (never reaching an intercepted call) is killed and reported as a real-time hang
-	int pfd[2]; if(pipe(pfd) != 0) { RunResult r; r.fail("machinery","pipe failed"); return r; }
-	std::string errf = g_scratch + "/stderr." + std::to_string(getpid());
-	fflush(stdout); fflush(stderr);
-	pid_t pid = fork();
-	if(pid == 0){
-		close(pfd[0]); g_in_child = true; g_result_fd = pfd[1];
-		if(!getenv("SIMK_KEEP_STDERR")){ int ef = open(errf.c_str(),O_WRONLY|O_CREAT|O_TRUNC,0600); if(ef >= 0){ dup2(ef,2); close(ef); } }
-		// the limit is on the CPU time of the run (a run spinning outside the simulator burns it), so that a loaded machine does not turn slow runs into "hangs";
-		// a generous wall-clock alarm stays as the backstop for a run that blocks in a real system call
-		{ int lim = getenv("VERIF_RUN_TIMEOUT") ? atoi(getenv("VERIF_RUN_TIMEOUT")) : timeout_s; struct rlimit rl; rl.rlim_cur = (rlim_t)lim; rl.rlim_max = (rlim_t)lim + 5; setrlimit(RLIMIT_CPU,&rl); alarm((unsigned)lim * 8); }
+// what a run process does once it is set up: (generate the plan,) run it, write the result JSON to fd, leave
+inline void child_body(Engine &e,const J &plan_in,int fd,const std::function<J()> *gen){
 		RunResult r; J generated; if(gen) generated = (*gen)(); const J &plan = gen ? generated : plan_in;
 		{ const J &sch = plan.get("sched"); if(sch.is_obj()){ size_t len = (size_t)std::max<int64_t>(0,std::min<int64_t>(sch.geti("len"),50000000)); std::vector<int> t(len,simk::SCHED_DEFAULT); const J &sw = sch.get("switches"); for(size_t i=0;i<sw.size();i++) if(sw.a[i].size() >= 2){ int64_t at = sw.a[i].a[0].as_int(); if(at >= 0 && (size_t)at < len) t[(size_t)at] = (int)sw.a[i].a[1].as_int(); } simk::set_guided_tape(t); }
 		  if(plan.geti("record_schedule")) simk::set_record_schedule(true); }
@@ -100,9 +91,27 @@ inline RunResult run_forked(Engine &e,const J &plan_in,int timeout_s = 40,const 
 		{ const std::string &t = simk::trace_text(); if(!t.empty()) r.msg += "\nTRACE(tail):\n" + (t.size() > 12000 ? t.substr(t.size()-12000) : t); }
 		if(gen){ r.plan_sample = plan.str(); if(r.plan_sample.size() > 1500) r.plan_sample = r.plan_sample.substr(0,1500) + "..."; }
 		std::string s = result_json(r).str();
-		size_t off = 0; while(off < s.size()){ ssize_t n = ::write(pfd[1],s.data()+off,s.size()-off); if(n <= 0) break; off += n; }
+		size_t off = 0; while(off < s.size()){ ssize_t n = ::write(fd,s.data()+off,s.size()-off); if(n <= 0) break; off += n; }
 		VERIF_COV_DUMP();
 		_exit(0);
+}
+
+// run one plan in a forked child of this (pristine) process
+inline RunResult run_forked(Engine &e,const J &plan_in,int timeout_s = 40,const std::function<J()> *gen = nullptr,const std::vector<std::string> *exec_args = nullptr){   // a run that spins outside the simulator (never reaching an intercepted call) is killed and reported as a real-time hang
+	int pfd[2]; if(pipe(pfd) != 0) { RunResult r; r.fail("machinery","pipe failed"); return r; }
+	std::string errf = g_scratch + "/stderr." + std::to_string(getpid());
+	fflush(stdout); fflush(stderr);
+	pid_t pid = fork();
+	if(pid == 0){
+		close(pfd[0]); g_in_child = true; g_result_fd = pfd[1];
+		if(!getenv("SIMK_KEEP_STDERR")){ int ef = open(errf.c_str(),O_WRONLY|O_CREAT|O_TRUNC,0600); if(ef >= 0){ dup2(ef,2); close(ef); } }
+		// the limit is on the CPU time of the run (a run spinning outside the simulator burns it), so that a loaded machine does not turn slow runs into "hangs";
+		// a generous wall-clock alarm stays as the backstop for a run that blocks in a real system call
+		{ int lim = getenv("VERIF_RUN_TIMEOUT") ? atoi(getenv("VERIF_RUN_TIMEOUT")) : timeout_s; struct rlimit rl; rl.rlim_cur = (rlim_t)lim; rl.rlim_max = (rlim_t)lim + 5; setrlimit(RLIMIT_CPU,&rl); alarm((unsigned)lim * 8); }
+		if(exec_args){   /* a fresh image of this program generates and runs the plan of one index (mode --child-run): its heap owes nothing to what the driving process has done so far */
+			if(pfd[1] != 9){ dup2(pfd[1],9); close(pfd[1]); } setenv("VERIF_RESULT_FD","9",1); { std::string top = g_scratch.substr(0,g_scratch.rfind('/')); setenv("VERIF_SCRATCH_BASE",top.c_str(),1); }
+			std::vector<char*> av; for(auto &x:*exec_args) av.push_back(const_cast<char*>(x.c_str())); av.push_back(nullptr); execv("/proc/self/exe",av.data()); _exit(4); }
+		child_body(e,plan_in,pfd[1],gen);
 	}
 	close(pfd[1]);
 	std::string out; char buf[65536]; ssize_t n;
@@ -219,7 +228,7 @@ inline int main_impl(int argc,char **argv,Engine &e,const char *engine_name){
 	uint64_t base = 1; long from = 0,count = 1000000000L,stride = 1; double seconds = 1e9; uint64_t seed = 0; bool have_seed = false; bool trace = false;
 	int shrink_budget = 400; double shrink_secs = 90; int sched_budget = 250;
 	for(int i=1;i<argc;i++){ std::string a = argv[i]; auto nx = [&]{ return std::string(i+1<argc ? argv[++i] : ""); };
-		if(a == "--batch" || a == "--confirm" || a == "--replay" || a == "--plan") { mode = a; if(a == "--replay") replay = nx(); }
+		if(a == "--batch" || a == "--confirm" || a == "--replay" || a == "--plan" || a == "--child-run") { mode = a; if(a == "--replay") replay = nx(); }
 		else if(a == "--prop") prop = nx(); else if(a == "--tier") tier = nx(); else if(a == "--base") base = strtoull(nx().c_str(),0,10);
 		else if(a == "--from") from = atol(nx().c_str()); else if(a == "--count") count = atol(nx().c_str()); else if(a == "--stride") stride = atol(nx().c_str());
 		else if(a == "--seconds") seconds = atof(nx().c_str()); else if(a == "--seed") { seed = strtoull(nx().c_str(),0,10); have_seed = true; }
@@ -242,6 +251,7 @@ inline int main_impl(int argc,char **argv,Engine &e,const char *engine_name){
 
 	if(!have_seed){ seed = seed_of(from); have_seed = true; }
 	runner_idx = from;
+	if(mode == "--child-run"){ g_in_child = true; g_result_fd = getenv("VERIF_RESULT_FD") ? atoi(getenv("VERIF_RESULT_FD")) : 1; std::function<J()> g = [&]{ return e.generate(seed,prop,thorough); }; child_body(e,J(),g_result_fd,&g); }
 	if(mode == "--plan"){ J p = e.generate(seed,prop,thorough); printf("%s\n",p.str().c_str()); return 0; }
 
 	if(mode == "--batch"){
@@ -252,7 +262,8 @@ inline int main_impl(int argc,char **argv,Engine &e,const char *engine_name){
 			printf("S %s\n",sl.c_str()); fflush(stdout);
 			runner_idx = idx;
 			J plan; RunResult r; bool child_generates = e.always_forks();
-			if(child_generates){ std::function<J()> g = [&]{ return e.generate(s,prop,thorough); }; r = run_forked(e,plan,40,&g); }
+			if(child_generates && e.exec_per_run()){ std::vector<std::string> av = {argv[0],"--child-run","--prop",prop,"--tier",tier,"--seed",std::to_string(s)}; r = run_forked(e,plan,40,nullptr,&av); }
+			else if(child_generates){ std::function<J()> g = [&]{ return e.generate(s,prop,thorough); }; r = run_forked(e,plan,40,&g); }
 			else plan = e.generate(s,prop,thorough);
 			if(child_generates){}
 			else if(e.fork_per_run(plan)) r = run_forked(e,plan);
@@ -271,7 +282,9 @@ inline int main_impl(int argc,char **argv,Engine &e,const char *engine_name){
 	}
 	if(mode == "--confirm"){
 		J plan = e.generate(seed,prop,thorough);
-		RunResult r1 = run_forked(e,plan), r2 = run_forked(e,plan);
+		RunResult r1,r2;
+		if(e.always_forks() && e.exec_per_run()){ std::vector<std::string> av = {argv[0],"--child-run","--prop",prop,"--tier",tier,"--seed",std::to_string(seed)}; r1 = run_forked(e,plan,40,nullptr,&av); r2 = run_forked(e,plan,40,nullptr,&av); }
+		else { r1 = run_forked(e,plan); r2 = run_forked(e,plan); }
 		J out = J::obj(); out["seed"] = (unsigned long long)seed; out["idx"] = (long long)from; out["base"] = (unsigned long long)base; out["engine"] = engine_name; out["property"] = prop;
 		if(r1.ok && r2.ok){ out["status"] = "not-reproduced"; printf("C %s\n",out.str().c_str()); return 2; }
 		if(r1.ok != r2.ok || r1.cls != r2.cls || r1.hash != r2.hash){ out["status"] = "nondeterministic"; out["r1"] = result_json(r1); out["r2"] = result_json(r2); printf("C %s\n",out.str().c_str()); return 2; }
